@@ -548,6 +548,11 @@ class RaggedArray(IndexableArray, np.lib.mixins.NDArrayOperatorsMixin):
     def _row_accumulate(self, operator, dtype=None):
         if self.size == 0:
             return self.__class__(self.ravel().copy(), self._shape)
+        if np.issubdtype(self.dtype, np.inexact):
+            # the offset trick below is only exact for integers; accumulate floats row by row
+            padded = operator.accumulate(self._as_padded_matrix(), axis=1, dtype=dtype)
+            mask = np.arange(padded.shape[1]) < self.lengths[:, None]
+            return self.__class__(padded[mask], self._shape)
         starts = self.ravel()[np.minimum(self._shape.starts, self.size-1)]
         cm = operator.accumulate(self.ravel(), dtype=dtype)
         offsets = INVERSE_FUNCS[operator][0](
